@@ -25,7 +25,7 @@ UNITS = [
     U("removeBack", "h_removeBack", "w_List_removeBack", ["removeBack.more", "removeBack.only"]),
     U("swap", "h_swap", "w_List_swap", ["swap.empty_with_full", "swap.full_with_full"]),
     B("copy+dtor.bounded", "h_b_copy", ["b_copy.return"]),
-    B("assign.bounded", "h_b_assign", ["b_assign.other"], defs=["NV_ALIAS=0", "NV_BK=1"], bound="lists of at most 1 element, values symbolic", timeout=1500),
+    B("assign.bounded", "h_b_assign", ["b_assign.other"], defs=["NV_ALIAS=0", "NV_BK=1"], bound="lists of at most 1 element, values symbolic", timeout=3000),
     B("sort.2elements", "h_b_sortn", ["b_sortn.return"], defs=["NV_SORTN=2"], bound="exactly 2 elements, values symbolic",
       cbmc=["--unwind", "4", "--unwinding-assertions"], timeout=900),
     B("clear+find+eq.bounded", "h_b_clear_find_eq", ["b_clear_find_eq.return"]),
